@@ -94,7 +94,31 @@ impl TwinEngine {
                     Err(e) => Err(format!("deploy_to() of a well-formed script failed: {e:#}")),
                 }
             }
-            TwinKind::Clone => Ok(r.g.clone_box()),
+            // a clone is made by clone(), or by clone_from() into another store (bigger, with
+            // vertices of its own, also above the source's capacity) or into an older copy
+            TwinKind::Clone => match r.done.len() % 4 {
+                2 => {
+                    let cap = r.cfg.cap * 2 + 3;
+                    let mut other = crate::graph::new_graph(r.cfg.n, cap);
+                    for i in [0, r.cfg.cap.saturating_sub(1), r.cfg.cap, cap - 1] {
+                        other.add(i);
+                    }
+                    other.put(cap - 1, &crate::graph::hex_of(&[1, 2, 3]));
+                    other.clone_from_dyn(&*r.g).map(|()| other).map_err(|e| format!("{e:#}"))
+                }
+                3 => {
+                    let mut other = crate::graph::new_graph(r.cfg.n, r.cfg.cap);
+                    other.add(0);
+                    if r.cfg.cap > 2 {
+                        other.add(r.cfg.cap - 1);
+                        other.bind(0, r.cfg.cap - 1, crate::lab::Lab::Alpha(0).direct());
+                        other.put(0, &crate::graph::hex_of(&[9; 12]));
+                        let _ = other.next_id();
+                    }
+                    other.clone_from_dyn(&*r.g).map(|()| other).map_err(|e| format!("{e:#}"))
+                }
+                _ => Ok(r.g.clone_box()),
+            },
             TwinKind::SaveLoad => {
                 let p = tmp_file("twin");
                 let out = r.g.save(&p).and_then(|_| r.g.load_same(&p));
